@@ -153,6 +153,28 @@ def law_sweep(ctx, sc):
                 if not abs(fn(s * pr, s * t) - a) <= 1e-9 * (1 + abs(a)):
                     bad(f"score:{fn.__name__}-scale", f"{fn.__name__} changes when prediction and truth are scaled by {s}", {"law": "scale", "truth": t[:5].tolist(), "s": s})
             nev += 4 * t.size
+    # the shape contract on the implementation alone: consistent shapes are accepted with n rows, inconsistent ones -- also
+    # those numpy would silently broadcast (one estimate row against p observations, n rows against one observation) --
+    # are rejected with ValueError
+    for n_, p_, k_ in [(1, 3, 1), (4, 1, 1), (1, 5, 2), (6, 1, 3), (3, 4, 1), (5, 2, 2), (2, 2, 1), (3, 3, 2), (1, 1, 1)]:
+        taus_ = np.linspace(0.1, 0.9, k_)
+        est_ = rng.normal(size=(n_, k_))
+        obs_ = rng.normal(size=p_)
+        for est_form in (est_, est_.ravel() if k_ == 1 else est_):
+            case = {"law": "shape-contract", "rows": n_, "observations": p_, "taus": k_}
+            nev += 1
+            try:
+                r = sc.quantile_score(est_form, obs_, taus_)
+                if n_ != p_:
+                    bad("shape-contract-accepts-inconsistent", f"quantile_score with {n_} estimate row(s) of {k_} quantile(s) and {p_} "
+                        f"observation(s) returned an array of shape {np.shape(r)} instead of raising ValueError", case)
+                elif np.shape(r) != (n_, k_):
+                    bad("shape-contract-shape", f"quantile_score of consistent shapes returned shape {np.shape(r)}, expected {(n_, k_)}", case)
+            except ValueError:
+                if n_ == p_:
+                    bad("shape-contract-rejects-consistent", f"quantile_score rejected consistent shapes ({n_} rows, {p_} observations, {k_} taus)", case)
+            except Exception as e:  # noqa
+                bad("shape-contract-other-exception", f"quantile_score raised {type(e).__name__} instead of ValueError for {n_} rows / {p_} observations", case)
     # large samples (every size class up to 10^4, sizes around powers of two and just past them): exhaustive search is
     # quadratic, so the candidates are the sample points at ranks around a tau-quantile; the mean loss is convex and
     # piecewise linear in c, so a tau-quantile q that does not minimise it is beaten by a neighbour in rank
